@@ -19,7 +19,7 @@ RULE = ("sequences of client messages (connection_init plain/accepted/rejected, 
         "recorded line and non-trivial when at least one operation goroutine was started and the server sent a "
         "close frame or a terminal message (error / complete).")
 
-KEYS = ("stop-unknown-id", "emit-after-cancel", "sub-error-goes-on")
+KEYS = ("sub-error-goes-on",)  # stop-unknown-id and emit-after-cancel are repaired (fixed: lines in KNOWN_FINDINGS.txt)
 
 
 def classify(case, detail):
@@ -190,8 +190,10 @@ def run(chk, only_corpus=None):
 
     vlib.conclude_differential(chk, state, more if only_corpus is None else None)
     chk.coverage["samples"] = [s[:600] for s in samples]
-    chk.notes.append("full theorem refuted on the faithful model (c19_*_trace_accepted_refuted); the three causes are listed findings; "
-                     "c19_*_trace_accepted_partial holds for all sequences without an instance of them")
+    chk.notes.append("full theorem refuted on the faithful model of the current code (c19_*_trace_accepted_refuted) by one listed cause, "
+                     "sub-error-goes-on; c19_*_trace_accepted_partial holds for all sequences without an instance of it. The two causes "
+                     "repaired in execution/subscription/engine.go (stop-unknown-id, emit-after-cancel) are kept as historical statements "
+                     "over ModelV0.v (c19_each_cause_refuted_v0) and their witnesses are accepted now (c19_repaired_witnesses_accepted)")
 
 
 def replay(chk, path):
